@@ -434,6 +434,11 @@ fn piece_taken(r: &RStack, cell: &RCell, l: usize, t: usize, pos: i64) -> bool {
     })
 }
 
+/// Is `pos` exactly an end point of a cut or blockage on signal track (l, t)? (which piece "covers" such a crossing is a tie the statement does not settle)
+fn on_boundary(r: &RStack, cell: &RCell, l: usize, t: usize, pos: i64) -> bool {
+    l < cell.metals && track_removed(r, cell, l, t).iter().any(|(a, z)| pos == *a || pos == *z)
+}
+
 /// Turn a well-formed cell into an ill-formed one by one injected conflict. Returns the kind, or None if this cell offers no place for it.
 pub fn inject_conflict(rng: &mut Rng, b: &BuiltStack, cell: &mut RCell) -> Option<&'static str> {
     let r = &b.r;
@@ -464,7 +469,7 @@ pub fn inject_conflict(rng: &mut Rng, b: &BuiltStack, cell: &mut RCell) -> Optio
                 return None;
             }
             let (l, t, cl, c) = *rng.pick(&cands);
-            if piece_taken(r, cell, cl, c, r.metals[l].center(t)) {
+            if piece_taken(r, cell, cl, c, r.metals[l].center(t)) || on_boundary(r, cell, cl, c, r.metals[l].center(t)) {
                 return None; // would put a second net on the crossing track's piece: a different (out-of-domain) conflict
             }
             cell.assigns.push(("onCut".into(), l, t, cl, c));
@@ -493,7 +498,7 @@ pub fn inject_conflict(rng: &mut Rng, b: &BuiltStack, cell: &mut RCell) -> Optio
                         cell.cuts.push((l, t, cl, c));
                         return Some("cut-inside-a-blockage");
                     } else {
-                        if piece_taken(r, cell, cl, c, r.metals[l].center(t)) || piece_taken(r, cell, l, t, ctr) {
+                        if piece_taken(r, cell, cl, c, r.metals[l].center(t)) || piece_taken(r, cell, l, t, ctr) || on_boundary(r, cell, cl, c, r.metals[l].center(t)) {
                             continue;
                         }
                         cell.assigns.push(("inBlk".into(), l, t, cl, c));
